@@ -165,6 +165,7 @@ class FormulaMaterializer(metaclass=FormulaMaterializerMeta):
 
         self.factor_cache: dict[str, EvaluatedFactor] = {}
         self.encoded_cache: dict[Union[str, tuple[str, bool]], Any] = {}
+        self.encoder_state_cache: dict[str, tuple[Factor.Kind, dict[str, Any]]] = {}
 
     def _init(self) -> None:
         pass  # pragma: no cover
@@ -685,8 +686,14 @@ class FormulaMaterializer(metaclass=FormulaMaterializerMeta):
         if not factor.metadata.encoded:
             if factor.expr in self.encoded_cache:
                 encoded = self.encoded_cache[factor.expr]
+                spec.encoder_state.setdefault(
+                    factor.expr, self.encoder_state_cache[factor.expr]
+                )
             elif (factor.expr, reduced_rank) in self.encoded_cache:
                 encoded = self.encoded_cache[(factor.expr, reduced_rank)]
+                spec.encoder_state.setdefault(
+                    factor.expr, self.encoder_state_cache[factor.expr]
+                )
             else:
 
                 def map_dict(f: Any) -> Any:
@@ -778,6 +785,7 @@ class FormulaMaterializer(metaclass=FormulaMaterializerMeta):
                             factor
                         )  # pragma: no cover; it is not currently possible to reach this sentinel
                 spec.encoder_state[factor.expr] = (factor.metadata.kind, encoder_state)
+                self.encoder_state_cache[factor.expr] = spec.encoder_state[factor.expr]
 
                 # Only encode once for encodings where we can just drop a field
                 # later on below.
